@@ -172,6 +172,10 @@ func (s *Service) proposeBlock(ctx context.Context,
 	}
 
 	if signedProposal.Blinded {
+		if auctionResults == nil {
+			// Without auction results there are no relays from which the block could be unblinded.
+			return errors.New("blinded proposal obtained but no auction results available; cannot unblind the block")
+		}
 		// Select the relays to unblind the proposal.
 		providers := make([]builderclient.UnblindedProposalProvider, 0, len(auctionResults.AllProviders))
 		unblindingCandidates := auctionResults.Providers
